@@ -132,6 +132,7 @@ impl Prop for Conventions {
         cfg.vft_num = 2;
         cfg.alias_types = 4;
         cfg.allow_f20 = true;
+        cfg.vft_base_anywhere = true;
         let (prog, _, _) = gen_prog(t, cfg);
         Case { prog, w }
     }
@@ -171,6 +172,10 @@ pub struct BadCcCase {
     /// a second calling_convention attribute on the same function: (name, written before the first one, separate bracket)
     #[serde(default)]
     pub second: Option<(String, bool, bool)>,
+    /// the function's name starts with an underscore (no wrapper is emitted for such functions; the
+    /// convention has to be a known one all the same)
+    #[serde(default)]
+    pub underscore: bool,
 }
 pub struct UnknownNames;
 impl Prop for UnknownNames {
@@ -179,7 +184,7 @@ impl Prop for UnknownNames {
         "C16/unknown-names".into()
     }
     fn rule(&self) -> String {
-        "a function (impl or vftable) whose calling_convention names something that is not one of the seven supported spellings (near misses in case, padding, other ABIs), alone or next to a second calling_convention attribute before or after it, in the same or a separate bracket; oracle: the build is an error when any of the names is unknown. The seven correct spellings are included as controls and must be accepted".into()
+        "a function (impl or vftable, a quarter of them with a name starting with an underscore) whose calling_convention names something that is not one of the seven supported spellings (near misses in case, padding, other ABIs), alone or next to a second calling_convention attribute before or after it, in the same or a separate bracket; oracle: the build is an error when any of the names is unknown. The seven correct spellings are included as controls and must be accepted".into()
     }
     fn gen(&self, t: &mut Tape) -> BadCcCase {
         let pool = [
@@ -191,6 +196,7 @@ impl Prop for UnknownNames {
             on_vfunc: t.chance(1, 2),
             w: if t.chance(1, 2) { 8 } else { 4 },
             second: if t.chance(1, 3) { Some((t.pick(&pool).to_string(), t.chance(1, 2), t.chance(1, 2))) } else { None },
+            underscore: t.chance(1, 4),
         }
     }
     fn judge(&self, c: &BadCcCase) -> Outcome {
@@ -198,7 +204,7 @@ impl Prop for UnknownNames {
             more: vec![],
             sty: 0,
             vis: true,
-            name: "f".into(),
+            name: if c.underscore { "_f".into() } else { "f".into() },
             doc: vec![],
             args: vec![Arg::ConstSelf],
             ret: None,
